@@ -139,6 +139,13 @@ def genC11Cases (tier : String) (seed : Nat) : Array Case := Id.run do
         let c : Case := { id := s!"c11-{b}-{k}", op := "conv", args := a1, exp := Json.str rule.code, tag := rule.name ++ "@" ++ ctx, note := n1 }
         out := out.push c
         k := k + 1
+  -- a lone closing or opening bracket in statements that otherwise contain no bracket of that kind
+  for (t, k) in [("A(Program Manager) D(may) I(inspect) Bdir(certified operations)}", 0), ("A(actor) I(act) } Bdir(x)", 1),
+                 ("{ A(actor) I(act)", 2), ("A(actor) I(act) Cac{A(x) I(y)", 3), ("A(actor) I(act)) Bdir(x)", 4), ("A(actor I(act)", 5),
+                 ("A(actor) I(act) Cac{A(x) I(y)}}", 6), ("A(actor) I((a [AND] b) Bdir(x)", 7)] do
+    let a3 := Json.mkObj [("text", (t : Json)), ("id", ("1" : Json))]
+    out := out.push { id := s!"c11-u{k}", op := "conv", args := a3, exp := Json.str Rule.unbalanced.code, tag := "unbalanced@fixed",
+                      note := Json.mkObj [("kf", ("" : Json)), ("rule", ("unbalanced" : Json)), ("ctx", ("top" : Json))] }
   -- text without any annotated component
   for t in ["plain words only", "", "   ", "the farmer must comply, or else.", "A B C (not a component)", "( )"] do
     let a2 := Json.mkObj [("text", (t : Json)), ("id", ("1" : Json))]
